@@ -119,6 +119,8 @@ def degree_conserved(ctx: Ctx):
             sdeg = got.pop("S", None) if isinstance(got, dict) else None
             got_nos = got
             ok = got_nos == exp
+            if isinstance(got_nos, Top) and got_nos.lost:
+                raise AnalysisError(f"DEGREE-CONSERVED: the degree of the object returned by {cfg} could not be computed ({got_nos.why}); cannot decide")
             res.instance("DEGREE-CONSERVED", f"{cfg}: {src(node)[:60]}", sample={"configuration": label, "degree": fmt(got_nos), "expected": fmt(exp), "ok": ok})
             if not ok:
                 ctx.finding("DEGREE-CONSERVED", f, node, f"`{cfg}` returns an object that represents a tensor of degree {fmt(got_nos)}, but its input represents one of degree {fmt(exp)} (W = weights, G = core, F = a factor, P = a projection, M = the operand; N = number of factors): the transform cannot leave the represented tensor unchanged, some scale is lost or applied twice", construct=f"{cfg}: represented degree {fmt(got_nos)} != {fmt(exp)}")
